@@ -578,6 +578,14 @@ func runC17(r *Runner) string {
 				c.do("c17.bip38", []string{strHex(base58check.Encode(r.bytesN(n)))}, "c17.bip38:length", n, true)
 			}
 		}
+		// a batch of well-framed EC-multiplied strings with pairwise distinct owner entropy (what a paper-wallet
+		// printer's output looks like to Decrypt): each costs one scrypt; 36 of them, once per run
+		if it == 0 {
+			for j := 0; j < 36; j++ {
+				m := append([]byte{0x01, 0x43, []byte{0x20, 0x00, 0x24, 0x04}[j%4]}, r.bytesN(36)...)
+				c.do("c17.bip38", []string{strHex(base58check.Encode(m))}, "c17.bip38:batch of distinct ec-multiplied strings", len(m), true)
+			}
+		}
 		// RPC response bodies: JSON values of every shape where a string / object is expected
 		for _, body := range []string{`null`, `{}`, `[]`, `1`, `"x"`, `true`, `{"result":null,"error":null}`, `{"result":5,"error":null}`,
 			`{"result":{"a":1},"error":null}`, `{"result":[1,2],"error":null}`, `{"result":"00","error":null}`, `{"result":"zz","error":null}`,
